@@ -119,6 +119,7 @@ type engine struct {
 	wg      sync.WaitGroup
 	resWG   sync.WaitGroup
 	errWG   sync.WaitGroup
+	frozen  bool // set (under mu) when the watchdog gave up: what happens during clean-up is not an observation
 }
 
 func waitTimeout(wg *sync.WaitGroup, d time.Duration) bool {
@@ -217,7 +218,9 @@ func (e *engine) Start(ctx context.Context, r *scan.Range) (<-chan interface{}, 
 		<-ctx.Done()
 		seen := e.now()
 		e.mu.Lock()
-		e.o.CtxDoneAt = seen
+		if !e.frozen {
+			e.o.CtxDoneAt = seen
+		}
 		e.mu.Unlock()
 		var w sync.WaitGroup
 		if e.k.ErrcLag >= 0 {
@@ -228,7 +231,9 @@ func (e *engine) Start(ctx context.Context, r *scan.Range) (<-chan interface{}, 
 				close(stopErr)
 				errWG.Wait()
 				e.mu.Lock()
-				e.o.ErrcClosed = e.now()
+				if !e.frozen {
+					e.o.ErrcClosed = e.now()
+				}
 				e.mu.Unlock()
 				close(errc)
 			}()
@@ -241,7 +246,9 @@ func (e *engine) Start(ctx context.Context, r *scan.Range) (<-chan interface{}, 
 				close(stopRes)
 				resWG.Wait()
 				e.mu.Lock()
-				e.o.ResClosed = e.now()
+				if !e.frozen {
+					e.o.ResClosed = e.now()
+				}
 				e.mu.Unlock()
 				close(e.results)
 			}()
@@ -397,6 +404,10 @@ func runCase(id int, seed int64, k script, cls string) row {
 	case <-time.After(wait - time.Since(t0)):
 	}
 	if !o.Returned {
+		// the watchdog gave up: freeze the observation, then cancel only to let the goroutines go
+		eng.mu.Lock()
+		eng.frozen = true
+		eng.mu.Unlock()
 		cancelParent()
 	}
 	// let every scripted offer run to its end (taken or given up) before reading the script back
